@@ -358,4 +358,132 @@ theorem start_noff (env : Env) (n : Nat) (P : PStore) (V : PVol)
   simp only [hnf]
   simp
 
+-- ------------------------------------------------------------------ the follower's own retry (next notification)
+
+theorem forIn_noop {β : Type} (f : Nat → β → Except Err (ForInStep β)) (st : β)
+    (h : ∀ x, f x st = .ok (.yield st)) : ∀ l : List Nat, forIn l st f = .ok st := by
+  intro l
+  induction l with
+  | nil => rfl
+  | cons a l ih => simp [List.forIn_cons, h, bind, Except.bind, ih]
+
+theorem loop1_two (f : Nat → List Block × Block → Except Err (ForInStep (List Block × Block)))
+    (b b2 xb : Block)
+    (h1 : ∀ x, f x ([], b2) = .ok (.yield ([b2], b)))
+    (h2 : ∀ x, f x ([b2], b) = .ok (.yield ([b, b2], xb)))
+    (h3 : ∀ x, f x ([b, b2], xb) = .ok (.yield ([b, b2], xb))) :
+    ∀ l : List Nat, l.length ≥ 2 → forIn l ([], b2) f = .ok ([b, b2], xb) := by
+  intro l hl
+  match l, hl with
+  | x :: y :: tl, _ =>
+    simp [List.forIn_cons, h1, h2, bind, Except.bind, forIn_noop f _ h3 tl]
+
+/-- the reorganisation path taken by the notification AFTER a missed one: nothing is disconnected,
+    the missed block and the new one are connected in one batch -/
+theorem reorg_next (c : Ctx) (s : Store) (best : BlockMeta) (b b2 xb : Block)
+    (hb : c.node.fetchBlock b2.prev = some b) (hx : c.node.fetchBlock b.prev = some xb)
+    (hh2 : b2.height = best.height + 2) (hh1 : b.height = best.height + 1)
+    (hhx : xb.height = best.height) (hid : best.hash = xb.id) :
+    reorg c s best b2 =
+      (match filterBlock c s (readyWallets s c.wallets) b with
+       | .error e => .error e
+       | .ok (s1, c1) =>
+         match filterBlock c s1 (readyWallets s c.wallets) b2 with
+         | .error e => .error e
+         | .ok (s2, c2) => .ok (s2, [], [(b.height, c1), (b2.height, c2)])) := by
+  unfold reorg
+  simp only [bind, Except.bind, pure, Except.pure]
+  rw [loop1_two _ b b2 xb ?h1 ?h2 ?h3 (List.range (b2.height + 1)) (by simp [hh2])]
+  case h1 => intro x; simp [hh2, hb]
+  case h2 => intro x; simp [hh1, hx]
+  case h3 => intro x; simp [hhx]
+  simp only [hid, ne_eq, not_true_eq_false, if_false]
+  simp only [List.forIn_cons, List.forIn_nil, bind, Except.bind, pure, Except.pure]
+  cases h1 : filterBlock c s (readyWallets s c.wallets) b with
+  | error e => simp
+  | ok r1 =>
+    obtain ⟨s1, c1⟩ := r1
+    simp only []
+    cases h2 : filterBlock c s1 (readyWallets s c.wallets) b2 with
+    | error e => simp
+    | ok r2 => obtain ⟨s2, c2⟩ := r2; simp
+
+theorem volAfterBlock_comp (v : Vol) (b b2 : Block) (x y : Nat × List TxId) :
+    volAfterBlock (volAfterBlock v b [] [x]) b2 [] [y] = volAfterBlock v b2 [] [x, y] := by
+  simp [volAfterBlock, List.foldl]
+
+theorem fetchBlock_id (nd : Node) (id : BlkId) (b : Block) (h : nd.fetchBlock id = some b) : b.id = id := by
+  unfold Node.fetchBlock at h
+  have := List.find?_some h
+  simpa using this
+
+/-- the follower's own retry: a notification `b` failed (fault at any call index: store and volatile
+    state unchanged), the NEXT notification `b2` (child of `b`) goes through the reorganisation path
+    and reaches exactly the state of the fault-free sequence `b`, `b2`. -/
+theorem follower_retry (env : Env) (n : Nat) (b b2 xb : Block) (P : PStore) (V : PVol)
+    (hb : env.node.fetchBlock b2.prev = some b) (hx : env.node.fetchBlock b.prev = some xb)
+    (hp : b.prev = V.led.best.hash) (hne : b.id ≠ V.led.best.hash)
+    (hh2 : b2.height = V.led.best.height + 2) (hh1 : b.height = V.led.best.height + 1)
+    (hhx : xb.height = V.led.best.height)
+    (hready : ∀ s1 c1, filterBlock (ctxOf env V) P.led (readyWallets P.led (ctxOf env V).wallets) b = .ok (s1, c1) →
+        readyWallets s1 (ctxOf env V).wallets = readyWallets P.led (ctxOf env V).wallets)
+    (hok : ((opBlock env n b).run none P V).ok = true)
+    (hok2 : ((opBlock env n b2).run none ((opBlock env n b).run none P V).P ((opBlock env n b).run none P V).V).ok = true) :
+    (opBlock env n b2).run none P V =
+      (opBlock env n b2).run none ((opBlock env n b).run none P V).P ((opBlock env n b).run none P V).V := by
+  have hbid : b.id = b2.prev := fetchBlock_id _ _ _ hb
+  have hxid : xb.id = b.prev := fetchBlock_id _ _ _ hx
+  have hid : V.led.best.hash = xb.id := by rw [hxid, hp]
+  have hne2 : ¬ (b2.prev = V.led.best.hash) := by rw [← hbid]; exact hne
+  -- the sequence: b extends the tip
+  rw [block_none env n b P V] at hok hok2 ⊢
+  have hb1 : blockTx (ctxOf env V) P.led V.led.best b =
+      (match filterBlock (ctxOf env V) P.led (readyWallets P.led (ctxOf env V).wallets) b with
+       | .error e => .error e
+       | .ok (s1, c1) => .ok (s1, [], [(b.height, c1)])) := by
+    unfold blockTx
+    rw [if_pos hp]
+    simp only [bind, Except.bind, pure, Except.pure]
+    cases filterBlock (ctxOf env V) P.led (readyWallets P.led (ctxOf env V).wallets) b with
+    | error e => rfl
+    | ok r => rfl
+  -- the retry: reorganisation path
+  have hb2 : blockTx (ctxOf env V) P.led V.led.best b2 =
+      (match filterBlock (ctxOf env V) P.led (readyWallets P.led (ctxOf env V).wallets) b with
+       | .error e => .error e
+       | .ok (s1, c1) =>
+         match filterBlock (ctxOf env V) s1 (readyWallets P.led (ctxOf env V).wallets) b2 with
+         | .error e => .error e
+         | .ok (s2, c2) => .ok (s2, [], [(b.height, c1), (b2.height, c2)])) := by
+    unfold blockTx
+    rw [if_neg hne2]
+    exact reorg_next (ctxOf env V) P.led V.led.best b b2 xb hb hx hh2 hh1 hhx hid
+  rw [block_none env n b2 P V, hb2]
+  rw [hb1] at hok hok2 ⊢
+  cases hf1 : filterBlock (ctxOf env V) P.led (readyWallets P.led (ctxOf env V).wallets) b with
+  | error e => simp [hf1] at hok
+  | ok r1 =>
+    obtain ⟨s1, c1⟩ := r1
+    rw [hf1] at hok2
+    simp only [] at hok2 ⊢
+    have hc : ctxOf env { V with led := volAfterBlock V.led b [] [(b.height, c1)] } = ctxOf env V := rfl
+    rw [block_none env n b2] at hok2 ⊢
+    simp only [hc, volAfterBlock_best] at hok2 ⊢
+    have hd : blockTx (ctxOf env V) s1 ⟨b.height, b.id⟩ b2 =
+        (match filterBlock (ctxOf env V) s1 (readyWallets s1 (ctxOf env V).wallets) b2 with
+         | .error e => .error e
+         | .ok (s2, c2) => .ok (s2, [], [(b2.height, c2)])) := by
+      unfold blockTx
+      rw [if_pos hbid.symm]
+      simp only [bind, Except.bind, pure, Except.pure]
+      cases filterBlock (ctxOf env V) s1 (readyWallets s1 (ctxOf env V).wallets) b2 with
+      | error e => rfl
+      | ok r => rfl
+    rw [hd, hready s1 c1 hf1] at hok2 ⊢
+    cases hf2 : filterBlock (ctxOf env V) s1 (readyWallets P.led (ctxOf env V).wallets) b2 with
+    | error e => simp [hf2] at hok2
+    | ok r2 =>
+      obtain ⟨s2, c2⟩ := r2
+      simp [volAfterBlock_comp]
+
 end MW.Lemmas.PersistCrash
